@@ -685,15 +685,19 @@ def _squeeze_by_scaling(bias, heights, monotonicity, output_min, output_max,
   if output_max_constraints == BoundConstraintsType.NONE:
     return bias, heights
 
+  # Bias itself must not exceed the upper bound, otherwise no scaling of the
+  # (non-negative) heights can bring the function back into the bounds.
+  bias = tf.minimum(bias, output_max)
   delta = output_max - bias
-  # For better stability use tf.where rather than the more standard approach:
-  # heights *= tf.reduce_sum(heights) / max(delta, eps)
-  # in order to keep everything strictly unchanged for small deltas, rather than
-  # increase heights by factor 1/eps and still don't meet constraints.
-  scaling_factor = tf.where(delta > 0.001,
-                            tf.reduce_sum(heights, axis=0) / delta,
+  # Scale heights down only if they do not fit between bias and the upper
+  # bound. In that case 'sum_heights > delta >= 0', so division is safe and
+  # everything stays strictly unchanged for functions already within bounds.
+  sum_heights = tf.reduce_sum(heights, axis=0)
+  scaling_factor = tf.where(sum_heights > delta,
+                            delta / tf.where(sum_heights > delta, sum_heights,
+                                             tf.ones_like(sum_heights)),
                             tf.ones_like(delta))
-  heights = heights / tf.maximum(scaling_factor, 1.0)
+  heights = heights * scaling_factor
   return bias, heights
 
 
